@@ -64,11 +64,14 @@ func CheckC03(run *Run) {
 	run.Prepare()
 	reqs := RouteCatalogue()
 	reqs = append(reqs, SharedRouteRequest(), DoubleSlashRequest(), NoSlashRequest(), RootPathRequest())
-	n := 8
+	reqs = append(reqs, SiblingRequest(), OddTemplateRequest())
+	reqs = append(reqs, TemplateFamilyRequests()...)
+	n, nt := 8, 8
 	if run.Tier == "thorough" {
-		n = 400
+		n, nt = 400, 200
 	}
 	reqs = append(reqs, RandomRouteRequests(rand.New(rand.NewSource(run.Seed+3)), n)...)
+	reqs = append(reqs, RandomTemplateFamilyRequests(rand.New(rand.NewSource(run.Seed+303)), nt)...)
 
 	type pending struct {
 		c   *CaseResult
